@@ -59,6 +59,15 @@ pub fn run(ctx: &Ctx) -> Value {
         }
         tw.emit(ev("t.hmsn", json!({"h": big(h as i128), "m": big(m as i128), "s": big(s as i128), "sub": big(0), "unit": 1}), || json!({"r": ot(NaiveTime::from_hms_opt(h, m, s))})));
     }}}
+    // width aliases of valid arguments
+    for a in crate::rng::alias_u32(23) { tw.emit(ev("t.hmsn", json!({"h": big(a as i128), "m": big(59), "s": big(59), "sub": big(0), "unit": 1}), || json!({"r": ot(NaiveTime::from_hms_nano_opt(a, 59, 59, 0))}))); }
+    for a in crate::rng::alias_u32(59) {
+        tw.emit(ev("t.hmsn", json!({"h": big(23), "m": big(a as i128), "s": big(59), "sub": big(0), "unit": 1}), || json!({"r": ot(NaiveTime::from_hms_nano_opt(23, a, 59, 0))})));
+        tw.emit(ev("t.hmsn", json!({"h": big(23), "m": big(59), "s": big(a as i128), "sub": big(0), "unit": 1}), || json!({"r": ot(NaiveTime::from_hms_nano_opt(23, 59, a, 0))})));
+        tw.emit(ev("t.hmsn", json!({"h": big(23), "m": big(59), "s": big(a as i128), "sub": big(5), "unit": 1000}), || json!({"r": ot(NaiveTime::from_hms_micro_opt(23, 59, a, 5))})));
+    }
+    for a in crate::rng::alias_u32(999) { tw.emit(ev("t.hmsn", json!({"h": big(1), "m": big(2), "s": big(3), "sub": big(a as i128), "unit": 1_000_000}), || json!({"r": ot(NaiveTime::from_hms_milli_opt(1, 2, 3, a))}))); }
+    for a in crate::rng::alias_u32(86_399) { tw.emit(ev("t.nsfm", json!({"secs": big(a as i128), "n": big(0)}), || json!({"r": ot(NaiveTime::from_num_seconds_from_midnight_opt(a, 0))}))); }
     for secs in [0u32, 58, 59, 60, 119, 86_339, 86_398, 86_399, 86_400, 86_401, 1 << 31, u32::MAX] {
         for n in [0u32, 1, 999_999_999, 1_000_000_000, 1_999_999_999, 2_000_000_000, u32::MAX] {
             tw.emit(ev("t.nsfm", json!({"secs": big(secs as i128), "n": big(n as i128)}), || json!({"r": ot(NaiveTime::from_num_seconds_from_midnight_opt(secs, n))})));
